@@ -90,8 +90,18 @@ Definition param_tags : list string := ["param"; "arg"; "keyword"].
 (* a warning was issued on the line of field i *)
 Definition reported_at (i : nat) (reps : list report) : Prop := exists r, In r reps /\ rp_field r = i.
 
+(* a warning says that the parameter this field documents is documented again further down
+   ('Parameter "x" was already documented' / 'Parameter "x" is documented as keyword') *)
+Definition rkind_dup (k : rkind) : bool := match k with RAlreadyDoc | RAsKeyword => true | _ => false end.
+Definition dup_reportedb (f : field) (reps : list report) : bool :=
+  is_tag param_tags f &&
+  match arg_name f with
+  | Some n => existsb (fun r => rkind_dup (rp_kind r) && text_eqb (rp_name r) n) reps
+  | None => false
+  end.
+
 Definition routed (i : nat) (f : field) (secs : list section) (reps : list report) : Prop :=
-  (exists e, entry_of_tag (f_tag f) = Some e /\ shown_once_under i e secs) \/ reported_at i reps.
+  (exists e, entry_of_tag (f_tag f) = Some e /\ shown_once_under i e secs) \/ reported_at i reps \/ dup_reportedb f reps = true.
 
 (* ---- the fields pydoctor drops without a word (from the input alone) ---------------------------------- *)
 Inductive slot := SlReturn | SlRtype | SlYield | SlYtype.
@@ -121,6 +131,20 @@ Definition stripped_first (E : env) : option text :=
   | _ => None
   end.
 
+Definition sig_names (E : env) : list text := map (fun p => pn_text (fst p)) (e_sig E).
+Definition in_sig (E : env) (f : field) : bool :=
+  match arg_name f with Some n => existsb (text_eqb n) (sig_names E) | None => false end.
+
+(* field j (after field i) documents the same parameter and pydoctor warns about it *)
+Definition dup_warned_at (E : env) (fs : list field) (f : field) (j : nat) : bool :=
+  match nth_error fs j with
+  | Some g => is_tag param_tags g && same_name f g &&
+              (negb (is_tag ["keyword"] g) || in_sig E f || existsb (fun h => is_tag ["type"] h && same_name f h) (firstn j fs))
+  | None => false
+  end.
+Definition later_dup_warned (E : env) (fs : list field) (i : nat) (f : field) : bool :=
+  existsb (dup_warned_at E fs f) (seq (S i) (List.length fs - S i)).
+
 Definition silently_lost (E : env) (fs : list field) (i : nat) (f : field) : bool :=
   let later := skipn (S i) fs in
   (* (a) @return / @rtype / @yield / @ytype : a later field of the same kind replaces it *)
@@ -132,12 +156,10 @@ Definition silently_lost (E : env) (fs : list field) (i : nat) (f : field) : boo
   || (is_tag ["type"] f && existsb (fun g => is_tag ["type"] g && same_name f g) later)
   (* (c) @ivar / @cvar / @var in the docstring of a function *)
   || is_var_tag (f_tag f)
-  (* (d) @param/@arg/@keyword x followed by another @param/@arg/@keyword x : the later one replaces it.
-         OVER-APPROXIMATION: when the later one is a @param/@arg, or a @keyword of a name that is in the signature
-         or has a @type, pydoctor does warn ('Parameter "x" was already documented' / 'is documented as keyword' --
-         see C09_dup_param_reported); only @keyword x after @param/@keyword x for an x outside the signature is silent.
-         The positive theorem leaves all parameter duplicates out. *)
-  || (is_tag param_tags f && existsb (fun g => is_tag param_tags g && same_name f g) later)
+  (* (d) @param/@arg/@keyword x followed by another @param/@arg/@keyword x -- the later one replaces it -- when none of
+         the later ones is warned about: a later @param/@arg x always is ('was already documented'); a later @keyword x
+         only when x is a parameter of the signature or already has a @type ('is documented as keyword') *)
+  || (is_tag param_tags f && existsb (fun g => is_tag param_tags g && same_name f g) later && negb (later_dup_warned E fs i f))
   (* (e) @type self (method) / @type cls (class method) without a @param for it *)
   || (is_tag ["type"] f &&
       match stripped_first E, arg_name f with
@@ -160,7 +182,7 @@ Definition routedb (i : nat) (f : field) (secs : list section) (reps : list repo
   match entry_of_tag (f_tag f) with
   | Some e => Nat.eqb (occurrences i secs) 1 && Nat.eqb (occurrences_under (labels_of e) i secs) 1
   | None => false
-  end || existsb (fun r => Nat.eqb (rp_field r) i) reps.
+  end || existsb (fun r => Nat.eqb (rp_field r) i) reps || dup_reportedb f reps.
 
 (* ---- order of the parameter rows ------------------------------------------------------------------------ *)
 Inductive subseq {X} : list X -> list X -> Prop :=
@@ -169,4 +191,3 @@ Inductive subseq {X} : list X -> list X -> Prop :=
 | subseq_skip : forall x a b, subseq a b -> subseq a (x :: b).
 
 Definition key_texts {V} (d : list (pname * V)) : list text := map (fun e => pn_text (fst e)) d.
-Definition sig_names (E : env) : list text := map (fun p => pn_text (fst p)) (e_sig E).
